@@ -42,8 +42,9 @@ impl TimeFormat {
     fn apply(&self, time: SystemTime) -> Result<Cow<'static, str>, Box<dyn Error>> {
         let formatted = match self {
             Self::SinceEpoch => {
-                let duration = time.duration_since(SystemTime::UNIX_EPOCH)?;
-                format!("{}.{:09}0", duration.as_secs(), duration.subsec_nanos())
+                // Whole seconds (negative before 1970) and the nanoseconds after them.
+                let (secs, nanos) = super::time::seconds_since_epoch(time);
+                format!("{secs}.{nanos:09}0")
             }
             Self::Ctime => {
                 const CTIME_FORMAT: &str = "%a %b %d %H:%M:%S.%f0 %Y";
